@@ -64,6 +64,30 @@ impl<'a, F: Family> Cx<'a, F> {
         }
     }
 
+    /// Sole ownership / mutable access was granted: from here on the holder may write without
+    /// further synchronisation, so the grant itself must be ordered after every earlier access.
+    fn grant_access(&self, ai: usize, kind: triomphe_verif_rt::sim::Access) {
+        let ids: Vec<u32> = self.env.m(|m| {
+            let a = &m.allocs[ai];
+            let mut v = Vec::new();
+            if let Some(x) = a.val {
+                if !a.uninit {
+                    v.push(x);
+                }
+            }
+            if let Some(h) = a.header {
+                v.push(h);
+            }
+            if a.elems_tracked && !a.uninit {
+                v.extend(a.elems.iter().copied().filter(|e| *e != 0));
+            }
+            v
+        });
+        for id in ids {
+            triomphe_verif_rt::sim::access(triomphe_verif_rt::sim::Space::Ident, id, kind);
+        }
+    }
+
     fn set_val(&self, ai: usize, id: u32) {
         self.env.m(|m| m.allocs[ai].val = if id == 0 { None } else { Some(id) });
     }
@@ -247,6 +271,9 @@ pub fn uniq<F: Family>(cx: &mut Cx<'_, F>, op: &Op) -> Outcome {
                 }
             });
             cx.verdict(&what, ai, granted);
+            if granted {
+                cx.grant_access(ai, triomphe_verif_rt::sim::Access::Write);
+            }
             cx.put(g, Slot { h: nh, ai });
             Done(Exp { no_rmw: true, no_alloc: true, ..Exp::default() })
         }
@@ -263,12 +290,13 @@ pub fn uniq<F: Family>(cx: &mut Cx<'_, F>, op: &Op) -> Outcome {
                     Ok(v) => {
                         cx.verdict(&what, ai, true);
                         probes::hit(P_UNWRAP_MOVED);
+                        cx.grant_access(ai, triomphe_verif_rt::sim::Access::MoveOut);
                         if !F::P::ZST && v.raw() != orig {
                             violation("value-mismatch", format!("`{}` returned payload #{} but the allocation held #{}", what, v.raw(), orig));
                         }
                         cx.release_moved_out(ai, &mut exp);
                         cx.put(g, Slot { h: Handle::ValP(v), ai: NOAI });
-                        exp.clones = Some(0);
+                        exp.clones = Some((0, 0));
                     }
                     Err(a) => {
                         cx.verdict(&what, ai, false);
@@ -295,15 +323,16 @@ pub fn uniq<F: Family>(cx: &mut Cx<'_, F>, op: &Op) -> Outcome {
                         cx.undo_pre_release(ai);
                         cx.verdict(&what, ai, true);
                         probes::hit(P_UNWRAP_MOVED);
+                        cx.grant_access(ai, triomphe_verif_rt::sim::Access::MoveOut);
                         cx.release_moved_out(ai, &mut exp);
-                        exp.clones = Some(0);
+                        exp.clones = Some((0, 0));
                     } else {
                         if !cx.par && cx.owners(ai) == 1 {
                             violation("verdict:declined-while-unique", format!("`{}` cloned the value although this handle was the only owner", what));
                         }
                         probes::hit(P_UNWRAP_KEPT);
                         cx.confirm_release(ai, &mut exp);
-                        exp.clones = Some(1);
+                        exp.clones = Some((1, usize::MAX));
                         let ok = reg(|r| r.ev[cx.t.min(3)].clones.iter().any(|c| c.0 == orig && c.1 == v.raw()));
                         if !F::P::ZST && !ok {
                             violation("value-mismatch", format!("`{}` returned payload #{} which is not a clone of #{}", what, v.raw(), orig));
@@ -334,7 +363,7 @@ pub fn uniq<F: Family>(cx: &mut Cx<'_, F>, op: &Op) -> Outcome {
             if !F::P::ZST && v.raw() != orig {
                 violation("value-mismatch", format!("`{}` returned payload #{} but the allocation held #{}", what, v.raw(), orig));
             }
-            let mut exp = Exp { clones: Some(0), no_rmw: true, ..Exp::default() };
+            let mut exp = Exp { clones: Some((0, 0)), no_rmw: true, ..Exp::default() };
             cx.release_moved_out(ai, &mut exp);
             probes::hit(P_UNWRAP_MOVED);
             cx.put(g, Slot { h: Handle::ValP(v), ai: NOAI });
@@ -405,7 +434,7 @@ pub fn uniq<F: Family>(cx: &mut Cx<'_, F>, op: &Op) -> Outcome {
                         probes::hit(P_MAKE_MUT_INPLACE);
                         cx.verdict(&what, ai, true);
                         cx.set_val(ai, new_id);
-                        exp.clones = Some(0);
+                        exp.clones = Some((0, 0));
                         exp.no_alloc = true;
                         exp.no_rmw = true;
                         Done(exp)
@@ -421,7 +450,7 @@ pub fn uniq<F: Family>(cx: &mut Cx<'_, F>, op: &Op) -> Outcome {
                             violation("cow:not-a-clone", format!("`{}`: the fresh allocation does not hold a clone of payload #{}", what, old_val));
                         }
                         cx.confirm_release(ai, &mut exp);
-                        exp.clones = Some(1);
+                        exp.clones = Some((1, usize::MAX));
                         exp.new_live = 1;
                         let mut a = cx.new_alloc(class, 0, &what);
                         a.val = if new_id == 0 { None } else { Some(new_id) };
@@ -598,6 +627,7 @@ pub fn uniq<F: Family>(cx: &mut Cx<'_, F>, op: &Op) -> Outcome {
                         let s = cx.slots[g as usize - cx.base].as_ref().unwrap();
                         let Handle::Thin(x) = &s.h else { unreachable!() };
                         let hid = if F::H::ZST { None } else { Some(x.header.header.raw()) };
+                        crate::handle::sane_len(x.slice.len());
                         let es: Vec<u32> = x.slice.iter().map(|e| e.raw()).collect();
                         cx.env.m(|m| {
                             m.allocs[ai].header = hid;
